@@ -51,6 +51,7 @@ class Ctx:
         self.notes = []
         self.configs_used = {}
         self.floors = []
+        self.shortfalls = []
         self.t0 = time.time()
         self.cur_config = None
         self.extra = {}
@@ -95,7 +96,15 @@ class Ctx:
     def floor(self, rule, n, floor, what):
         self.floors.append({"rule": rule, "config": self.cur_config, "what": what, "counted": n, "floor": floor})
         if n < floor:
-            raise AnalysisError("%s [%s]: instance count %d below floor %d (%s)" % (rule, self.cur_config, n, floor, what))
+            # deferred: the remaining rules still run, so that a violation which explains the shortfall is reported as such;
+            # a shortfall with no violation ends the run as ANALYSIS-ERROR (exit 2, never a pass) -- see check_shortfalls()
+            self.shortfalls.append("%s [%s]: instance count %d below floor %d (%s)" % (rule, self.cur_config, n, floor, what))
+
+    def check_shortfalls(self):
+        if self.shortfalls and not any(not i.ok for i in self.instances):
+            raise AnalysisError("; ".join(self.shortfalls))
+        for s in self.shortfalls:
+            self.note("floor shortfall (reported together with the violations above): " + s)
 
     def wants(self, rule):
         return self.only_rule is None or rule == self.only_rule or rule.startswith(self.only_rule)
